@@ -190,7 +190,7 @@ theorem convertVariable_input_plain (s : CState) (v : Nat) (u : U) (cf : Rat) (m
     (hst : hasKey v s.odeDef = false) (hfr : getFree s ≠ some v) :
     convertVariable s v u cf .input move =
       ((convertInstance s v cf u .input move).1, (convertInstance s v cf u .input move).2, []) := by
-  simp [convertVariable, hcf, hst, hfr]
+  simp [convertVariable, statePhase, freePhase, replacePhase, hcf, hst, hfr]
 
 -- ------------------------------------------------------------------------------------------------ the new variable
 theorem setV_self (σ : Val K) (i : Nat) (c : K) : (σ.setV i c).v i = c := by simp [Val.setV]
